@@ -326,6 +326,34 @@ def check_builder(res, case):
         if nt != exp:
             res.violation("builder-transitions", f"{nt} transitions stored, schedule has {exp}", cfgs)
         res.nontriv(("builder", how, tuple(cfgs), chunk))
+        # the same builder re-configured with another schedule (through the other setter) and built again
+        how2 = "set_duration" if how == "set_epochs" else "set_epochs"
+        if how2 == "set_duration":
+            term2 = int(rng.integers(2, 8))
+            b.set_duration(75 + term2 + 25 + int(rng.integers(0, 60)) * 3 + 7, int(rng.integers(1, 30)) * 3 + 1, term_duration=term2)
+        else:
+            from vlib.probes import gen_schedule as _gs
+
+            b.set_epochs(mk_epochs(_gs(rng, max_epochs=4, max_dur=9)))
+        if case["idx"] % 2:
+            # ... or with the same setter again
+            b.set_duration(200 + int(rng.integers(0, 50)), 50 + int(rng.integers(0, 50)))
+            how2 = "set_duration (twice)"
+        cfgs2 = [(int(e.type), int(e.duration), int(e.thinning)) for e in b.epochs]
+        eng2 = b.build()
+        chunk2 = int(eng2._jitted_sample_duration)
+        res.mon("builder_chunk_divides")
+        bad2 = [c for c in cfgs2[1:] if chunk2 < 1 or c[1] % chunk2 != 0]
+        if bad2:
+            res.violation("builder-chunk", f"second build() of the same builder after {how2}: chunk {chunk2} does not divide {bad2} in "
+                          f"{cfgs2} (first schedule {cfgs}, chunk {chunk})", cfgs2)
+        else:
+            eng2.sample_all_epochs()
+            n2 = eng2.get_results().transition_infos.combine_all().unwrap()
+            nt2 = int(np.asarray(next(iter(n2.values())).error_code).shape[1])
+            res.mon("builder_sampling_runs")
+            if nt2 != sum(c[1] for c in cfgs2[1:]):
+                res.violation("builder-transitions", f"second build: {nt2} transitions stored, schedule has {sum(c[1] for c in cfgs2[1:])}", cfgs2)
         if res.sample is None:
             res.sample = {"builder": how, "epochs": cfgs, "chunk": chunk}
     _ = total_time, math
